@@ -122,6 +122,21 @@ def main():
         for col in range(nf):
             if int(np.sum(Xmiss[:, col] == -999)) != int(ns * pn) or np.any((Xmiss[:, col] != -999) & (Xmiss[:, col] != X[:, col])):
                 h.fail('generate_noise.missing_exactly_floor_pn', dict(base, p=pn, column=col), f'{int(np.sum(Xmiss[:, col] == -999))} markers, floor(p*n) = {int(ns * pn)}')
+        # missing-type noise with the default (float) marker on a float64 matrix, as after generate_correlated / nonlinear combinations
+        Xf64 = X.astype(np.float64)
+        snap = Xf64.copy()
+        try:
+            out = g.generate_noise(Xf64, np.asarray(yb), p=pn, type='missing')
+            h.record(('noise_missing_f64', case), pn > 0)
+            if not np.array_equal(Xf64, snap) or np.shares_memory(out, Xf64):
+                h.fail('generate_noise.missing_input_untouched', dict(base, p=pn, dtype='float64', marker='default'),
+                       'input array was modified / returned matrix aliases the input')
+            for col in range(nf):
+                marks = int(np.sum(~np.isfinite(out[:, col])))
+                if marks != int(ns * pn) or np.any(np.isfinite(out[:, col]) & (out[:, col] != snap[:, col])):
+                    h.fail('generate_noise.missing_exactly_floor_pn', dict(base, p=pn, column=col, dtype='float64'), f'{marks} markers, floor(p*n) = {int(ns * pn)}')
+        except Exception as e:
+            h.fail('generate_noise.missing_no_raise', dict(base, p=pn, dtype='float64'), f'{type(e).__name__}: {e}')
         # ---- down-sampling
         yb = np.asarray(yb)
         counts = np.bincount(yb, minlength=2)
